@@ -24,8 +24,8 @@ PROPS["C11"] = dict(
         SC_NOTE,
     ],
     runs=[
-        run("cb", "c11_sched", "cb_sched", "rc", dict(procs=5, cases=8000), dict(procs=10, cases=300000), asan_extra=SCHED_ASAN),
-        run("spin", "c11_sched", "spin_sched", "rc", dict(procs=3, cases=5000), dict(procs=4, cases=150000), asan_extra=SCHED_ASAN),
+        run("cb", "c11_sched", "cb_sched", "rc", dict(procs=5, cases=20000), dict(procs=10, cases=300000), asan_extra=SCHED_ASAN),
+        run("spin", "c11_sched", "spin_sched", "rc", dict(procs=3, cases=12000), dict(procs=4, cases=150000), asan_extra=SCHED_ASAN),
         run("exhaustive", "c11_sched", "cb_sched", "exh", dict(procs=1, arg="quick"), dict(procs=1, arg="thorough", timeout=7200), asan_extra=SCHED_ASAN),
     ],
 )
